@@ -89,6 +89,13 @@ def gen_history(rng, tier):
         # polling loop wakes up from its sleep: the loop never notices and simply carries on (offsets stay gap-free, batches of
         # the same poll round that have been scheduled but not yet emitted are still emitted)
         h['stopstart'] = [[k, rng.choice([0.25, 0.5, -1, -3])] for k in sorted(rng.sample(range(6), rng.choice([1, 2])))]
+    if rng.random() < 0.25:
+        # the watermark look-up of the polling loop (100 ms timeout) fails now and then: the partition is skipped in that round
+        h['wm_fail_at'] = sorted(rng.sample(range(0, 7), rng.choice([1, 1, 2, 3])))
+    if rng.random() < 0.25:
+        # librdkafka's other spellings of the two reset policies
+        h['reset_spelling'] = rng.choice(['largest', 'end'] if h['reset'] == 'latest' else ['smallest', 'beginning'])
+        h.pop('reset_given', None)
     if rng.random() < 0.2:
         # some messages have an empty payload (b'') or none at all (a tombstone): they are messages like any other
         h['empty'] = [rng.choice([0.15, 0.3, 0.6]), rng.randrange(1000), rng.choice(['b', 'none', 'mix'])]
@@ -121,7 +128,7 @@ def _run_incarnation(Stream, broker, h, crash_at, preload):
         with R.recording(env.now) as log:
             broker.log = log
             log.add('KAFKA', 'broker', 'incarnation_start')
-            params = {'bootstrap.servers': 'fake', 'group.id': 'g', 'auto.offset.reset': h['reset']}
+            params = {'bootstrap.servers': 'fake', 'group.id': 'g', 'auto.offset.reset': h.get('reset_spelling', h['reset'])}
             if h.get('reset_given') is False:
                 del params['auto.offset.reset']
             if h.get('user_autocommit') is not None:
@@ -381,6 +388,8 @@ def check_history(h, crash_at, counters, sets):
         broker.n_committed = 0
         broker.fetch_failures = set(h.get('fetch_failures', ()))
         broker.n_assign = 0
+        broker.wm_fail_at = set(h.get('wm_fail_at', ()))
+        broker.n_wm = 0
         inc = run_incarnation(broker, h, crash, preload=(k == 1))
         inc['size_at_start'] = size_at_start
         inc['committed_at_start'] = committed_at_start
